@@ -360,12 +360,18 @@ class Interp:
             return (-INF if lo <= -INF else (lo + v.add) >> sh), (INF if hi >= INF else (hi + v.add) >> sh)
         return (lo + v.add) >> sh, (hi + v.add) >> sh
 
-    def check_aligned(self, v, st, top_bit, node):
-        """bit i of (orig + delta + add) == bit i of orig for i <= top_bit requires delta+add % 2**(top_bit+1) == 0."""
-        for c in st.cells[v.src]:
-            if (c.delta + v.add) % (1 << (top_bit + 1)) != 0:
-                raise Unsupported('bits of an operand taken after a non-aligned adjustment ({:+d}) at {}'.format(
-                    c.delta + v.add, unparse(node)))
+    def bit_source(self, v, st, top_bit, node):
+        """Source whose two's-complement bits 0..top_bit equal those of the view's value before shifting.
+        bit i of (orig + delta + add) == bit i of orig for i <= top_bit when (delta + add) % 2**(top_bit+1) == 0;
+        otherwise, if every cell carries the same adjustment d, the bits are those of the distinct quantity orig + d."""
+        totals = {c.delta + v.add for c in st.cells[v.src]}
+        if all(t % (1 << (top_bit + 1)) == 0 for t in totals):
+            return v.src
+        if len(totals) == 1:
+            d = totals.pop()
+            return (v.src[0], '{}{:+d}'.format(v.src[1], d))
+        raise Unsupported('bits of an operand taken after differing non-aligned adjustments {} at {}'.format(
+            sorted(totals), unparse(node)))
 
     def mask_view(self, v, mask, st, node):
         sh = st.shift[v.src] + v.shift
@@ -373,9 +379,8 @@ class Interp:
         if v.trunc is not None:
             mask &= (1 << v.trunc) - 1
             nbits = mask.bit_length()
-        if nbits:
-            self.check_aligned(v, st, nbits - 1 + sh, node)
-        bits = [((v.src, i + sh) if (mask >> i) & 1 else 0) for i in range(nbits)]
+        src = self.bit_source(v, st, nbits - 1 + sh, node) if nbits else v.src
+        bits = [((src, i + sh) if (mask >> i) & 1 else 0) for i in range(nbits)]
         self.masks.append({'src': v.src, 'node': node, 'mask': mask, 'shift': sh,
                            'cells': [c.copy() for c in st.cells[v.src]],
                            'fn': self.fn_stack[-1] if self.fn_stack else '?'})
@@ -403,9 +408,8 @@ class Interp:
                     '-inf' if lo <= -INF else lo, '+inf' if hi >= INF else hi, unparse(node)))
             w = hi.bit_length()
             sh = st.shift[v.src] + v.shift
-            if w:
-                self.check_aligned(v, st, w - 1 + sh, node)
-            return Bits([(v.src, i + sh) for i in range(w)])
+            src = self.bit_source(v, st, w - 1 + sh, node) if w else v.src
+            return Bits([(src, i + sh) for i in range(w)])
         raise Unsupported('value {} used as bits at {}'.format(v, unparse(node)))
 
     # -- calls -------------------------------------------------------------------------------------------
@@ -692,6 +696,7 @@ class Interp:
             fc.extend(no)
             if not exact:
                 t.imprecise = True
+                f.imprecise = True
         t.cells[src] = [c for c in (x.norm() for x in tc) if c is not None]
         f.cells[src] = [c for c in (x.norm() for x in fc) if c is not None]
         return (t if t.cells[src] else None), (f if f.cells[src] else None)
@@ -802,6 +807,12 @@ class Interp:
                     if len(positions) == 1:
                         want_zero = isinstance(op, ast.Eq)
                         return 'pred', (src, bit_pred(positions[0], want_zero, st))
+            srcs = {x[0] for x in a.bits if isinstance(x, tuple)}
+            srcs = {x for x in srcs if x in st.cells}
+            if len(srcs) == 1 and isinstance(b, (int, bool)):
+                # outcome depends on operand bits already extracted: both outcomes stay possible for every accepted
+                # value (sound over-approximation of the accepted set); the state is marked imprecise
+                return 'pred', (srcs.pop(), lambda cell: ([cell.copy()], [cell.copy()], False))
             raise Unsupported('comparison of a bit field with undecidable outcome: {}'.format(unparse(node)))
         if not isinstance(a, View):
             raise Unsupported('comparison {}'.format(unparse(node)))
